@@ -21,13 +21,17 @@ HARNESSES = [
        scenarios=[{'RANGE': 0}, {'RANGE': 1}], timeout=900,
        desc='allocateAligned strategy selection for symbolic (size, power-of-two alignment <= 2^30); inner allocator cut to a contract stub',
        bounds={'size': 'RANGE0: 0..16383, RANGE1: 16384..2^46', 'alignment': '2^0..2^30', 'cut': 'internalPoolMalloc, getFromLLOCache, getTLS'}),
-  dict(name='pubfree', unit='pub2', harness='h_pub.c', defines={'ROUNDS': 2}, scenarios=[{'SC': 0}, {'SC': 6}, {'SC': 3}, {'SC': 5}], timeout=900, cbmc=['--unwind', '8', '--object-bits', '12'],
-       desc='x', bounds={}),
+  dict(name='pubfree', unit='pub2', harness='h_pub.c', defines={'ROUNDS': 2}, scenarios=[{'SC': 0}, {'SC': 3}, {'SC': 5}],
+       scenarios_thorough=[{'SC': 0}, {'SC': 6}, {'SC': 3}, {'SC': 5}, {'SC': 1}, {'SC': 4}], timeout=1500, cbmc=['--unwind', '8', '--object-bits', '12'],
+       thorough_override=dict(timeout=3600),
+       desc='cross-thread free on one slab block (thread mode): Block::freePublicObject || Bin::getPrivatizedFreeListBlock + privatizePublicFreeList + allocateFromFreeList (owner) or privatizeOrphaned (adopter of an orphaned block): every freed object ends in exactly one place, nothing handed out twice, allocatedCount consistent, block mailed exactly once while its public list is non-empty, UNUSABLE sentinel never dereferenced',
+       bounds={'threads': '2 (quick) / 3 (thorough SC1, SC4)', 'free_rounds': 2, 'forced_rounds': 2, 'unroll': 2, 'objects': '3 (1-2 freed concurrently)', 'cut': 'Block::adjustPositionInBin (owner-private state, float arithmetic)',
+               'scenarios': 'SC0 free||owner, SC3 orphaned: free||adopter, SC5 free||free; thorough: SC6 free onto a non-empty public list||owner, SC1 free||free||owner, SC4 orphaned: free||free||adopter'}),
 ]
 MANIFEST = dict(
   level_text='Bounded symbolic execution of the real tbbmalloc front-end kernels: size-class functions for every request size; one inductive step of the slab (Block) operations from an arbitrary state satisfying the representation invariant, for every size class; allocateAligned strategy selection for symbolic size/alignment with the inner allocator cut to its contract. Call histories are covered by the inductive-step argument, not by exploration.',
-  level_note='Cut points and stub contracts listed in evidence; whole-allocator histories through scalable_malloc, backend/large-object cache, cross-thread frees (pubfree) are outside unless listed. Trusted: clang-14 IR, tools/ir2c.py (validated per run against the real C++ by the selftest differential), cbmc.',
+  level_note='Cut points and stub contracts listed in evidence; whole-allocator histories through scalable_malloc and the backend/large-object cache are outside; cross-thread frees are covered only within the bounds of pubfree (one block, 2-3 threads, 2 rounds). Trusted: clang-14 IR, tools/ir2c.py (validated per run against the real C++ by the selftest differential), cbmc.',
 )
-OUTSIDE = ['whole-allocator call histories through scalable_malloc (initialisation, backend regions)', 'large-object cache and backend coalescing', 'thread-exit orphan adoption end to end']
+OUTSIDE = ['whole-allocator call histories through scalable_malloc (initialisation, backend regions)', 'large-object cache and backend coalescing', 'cross-thread frees beyond the pubfree bounds (one block, <=2 concurrent frees, 2 rounds)', 'thread-exit orphan adoption end to end']
 STUBS = ['internalPoolMalloc/getFromLLOCache: any pointer satisfying the slab-grid / alignment guarantee, or NULL', 'getTLS: arbitrary pointer', 'pthread_self: constant']
 ASSUMPTIONS = ['slab objects are placed at end-(k+1)*objectSize (established by block_step STEP 0/1/3 as an inductive invariant)', 'alignment passed to allocateAligned is a power of two (checked by all public callers)']
